@@ -887,3 +887,104 @@ Proof.
   pose proof (model_verify true i kn a hn an Hwf Hrow) as V. cbv zeta in V.
   rewrite P in V. unfold model. rewrite C. exact V.
 Qed.
+
+(* ---------- any JSON codec meeting the round-trip hypotheses ---------- *)
+
+(* The property holds of the pipeline over ANY payload codec (bytes, enc, dec,
+   key sets, JWS re-encoding) with: decoding an encoded descriptor whose size is
+   an int64 gives the JSON round trip [json_rt] of it; the document has the single
+   key targetArtifact and the omitempty key set; the JWS re-encoding changes the
+   numbers only, as [jws_number]. *)
+Lemma any_codec_spec_ok :
+  forall (bytes : Type) (enc : descr -> bytes) (dec : bytes -> option descr)
+         (top_keys tgt_keys : bytes -> list string) (recode : bytes -> bytes),
+  (forall d, in_int64 (d_size d) -> dec (enc d) = Some (json_rt d)) ->
+  (forall d, top_keys (enc d) = ["targetArtifact"]) ->
+  (forall d, tgt_keys (enc d) = present_keys d) ->
+  (forall d, recode (enc d) = enc (set_size d (jws_number (d_size d)))) ->
+  forall i, wf i = true -> spec_ok i (pipeline bytes enc dec top_keys tgt_keys recode true i) = true.
+Proof. intros. apply pipeline_spec_ok; assumption. Qed.
+
+(* ---------- witnesses ---------- *)
+
+Definition ex_consts : consts := mk_consts "notation-go/1.3.0+unreleased" "vh-plugin" "1.2.3" "vh-envelope-plugin/9".
+
+Definition ex_desc (size : Z) : descr :=
+  mk_descr "application/vnd.oci.image.manifest.v1+json" "sha256:9834876dcfb05cb167a5c24953eba58c4ac89b1adf57f28f2f9d09af107ee8f0"
+           size ["https://example.com/blob"] [("org.opencontainers.image.title", "app")] "e30=" "linux/amd64"
+           "application/vnd.example.sbom.v1".
+
+Definition ex_oci (fmt : string) (sg : signer) (size : Z) : input :=
+  mk_input (TOCI (ex_desc size)) sg (mk_ks KRSA 3072) fmt [("buildId", "42")] (3600 * second) ""
+           1700000000123456789 ex_consts true (TOCI (ex_desc size)) [("buildId", "42")].
+
+Definition ex_blob_b : blob := mk_blob 11 "sha256:aa" "sha384:bb" "sha512:cc".
+
+Definition ex_blob (meta : amap) : input :=
+  mk_input (TBlob ex_blob_b "text/plain" true) (Plug true false "EC-521") (mk_ks KEC 521) mt_cose meta (86400 * second)
+           "" 1700000000999999999 ex_consts true (TBlob ex_blob_b "" false) [].
+
+(* non-vacuity: concrete well-formed inputs and what the model says *)
+Lemma example_oci :
+  wf (ex_oci mt_cose Local 528) = true /\
+  model (ex_oci mt_cose Local 528)
+  = mk_obs 0 None None None
+      (Some (mk_sobs PS384 mt_payload ["targetArtifact"] ["annotations"; "digest"; "mediaType"; "size"]
+         (Some (mk_descr "application/vnd.oci.image.manifest.v1+json"
+                  "sha256:9834876dcfb05cb167a5c24953eba58c4ac89b1adf57f28f2f9d09af107ee8f0" 528 []
+                  [("org.opencontainers.image.title", "app"); ("buildId", "42")] "" "" ""))
+         1700000000 (Some 1700003600%Z) "notation-go/1.3.0+unreleased"))
+      0 None (Some (ex_desc 528)) (Some [("org.opencontainers.image.title", "app"); ("buildId", "42")]).
+Proof. split; vm_compute; reflexivity. Qed.
+
+Lemma example_blob :
+  wf (ex_blob [("releasedBy", "me")]) = true /\
+  model (ex_blob [("releasedBy", "me")])
+  = mk_obs 0 (Some "sha512") (Some ("EC-521", "SHA-512")) None
+      (Some (mk_sobs ES512 mt_payload ["targetArtifact"] ["annotations"; "digest"; "mediaType"; "size"]
+         (Some (mk_descr "text/plain" "sha512:cc" 11 [] [("releasedBy", "me")] "" "" ""))
+         1700000000 (Some 1700086400%Z) "notation-go/1.3.0+unreleased vh-plugin/1.2.3"))
+      0 (Some "sha512") (Some (mk_descr "text/plain" "sha512:cc" 11 [] [("releasedBy", "me")] "" "" ""))
+      (Some [("releasedBy", "me")]).
+Proof. split; vm_compute; reflexivity. Qed.
+
+(* KNOWN finding, footprint 1: with the JWS envelope an OCI descriptor size that
+   is not a float64 is signed rounded, and verification then fails; COSE is exact *)
+Lemma jws_size_refuted :
+  let i := ex_oci mt_jws Local 9007199254740993 in
+  legal i = true /\ wf i = false /\ spec_ok i (model i) = false /\
+  o_verify (model i) = 2%N /\
+  (exists s p, o_env (model i) = Some s /\ s_payload s = Some p /\ d_size p = 9007199254740992%Z) /\
+  spec_ok (ex_oci mt_cose Local 9007199254740993) (model (ex_oci mt_cose Local 9007199254740993)) = true.
+Proof.
+  cbv zeta. repeat split; try (vm_compute; reflexivity).
+  eexists. eexists. split; [vm_compute; reflexivity|]. split; reflexivity.
+Qed.
+
+(* the same defect makes an envelope-generator plugin signer fail at Sign *)
+Lemma jws_size_plugin_refuted :
+  let i := ex_oci mt_jws (Plug false true "RSA-3072") 9007199254740993 in
+  legal i = true /\ o_sign (model i) = 3%N.
+Proof. cbv zeta. split; vm_compute; reflexivity. Qed.
+
+(* user metadata that is not valid UTF-8 is not read back as it was given
+   (JSON replaces the offending bytes by U+FFFD): [legal] has to demand text *)
+Lemma non_utf8_metadata_refuted :
+  let i := ex_blob [("m", B [255%N])] in
+  legal i = false /\ o_sign (model i) = 0%N /\ o_verify (model i) = 0%N /\
+  o_meta (model i) = Some [("m", B [239%N; 191%N; 189%N])] /\ o_meta (model i) <> Some (i_meta i).
+Proof.
+  cbv zeta. repeat split; try (vm_compute; reflexivity).
+  vm_compute. intros H. discriminate H.
+Qed.
+
+(* notation.VerifyBlob before a20d301: the zero descriptor comes back, and the
+   oracle rejects that behaviour *)
+Lemma blob_descriptor_old_refuted :
+  let i := ex_blob [("releasedBy", "me")] in
+  wf i = true /\ o_verify (model_old i) = 0%N /\ o_ret (model_old i) = Some zero_descr /\
+  spec_ok i (model_old i) = false /\ spec_ok i (model i) = true.
+Proof. cbv zeta. repeat split; vm_compute; reflexivity. Qed.
+
+Lemma keyspec_names : forall k s, decode_keyspec s = Some k <-> encode_keyspec k = Some s.
+Proof. intros k s. split; [exact (decode_encode k s) | exact (encode_decode k s)]. Qed.
